@@ -17,9 +17,92 @@ import (
 type c05Params struct {
 	RefOpts []RefOpt `json:"refopts,omitempty"`
 	Shape   string   `json:"shape"`
+	Breadth int      `json:"breadth,omitempty"` // shape "scaling"
+}
+
+// scalingWorld: three levels of trees with `breadth` entries each, every
+// entry of a level naming the same tree of the level below (a multi-edge
+// bomb: 3 distinct trees, breadth^3 expanded files).
+func scalingWorld(breadth int) *World {
+	w := &World{Layout: "loose", Head: "ref: refs/heads/main"}
+	blob := w.Add(NewObject(KBlob, []byte("bomb\n")))
+	top := AddBomb(w, 3, breadth, blob, "")
+	cs := CommitSpec{Tree: top.ID, Author: ident("A", 1500000000, "+0000"), Committer: ident("C", 1500000000, "+0000"), Message: "scaling\n"}
+	co := w.Add(NewObject(KCommit, EncodeCommit(cs)))
+	w.Refs = []Ref{{Name: "refs/heads/main", OID: co.ID}}
+	return w
+}
+
+// judgeScaling: the real binary on the same bomb at breadth W and 2W. The
+// number of distinct objects is the same and the number of tree entries
+// doubles, so linear work at most doubles the time; the bound leaves room
+// for a constant start-up cost; what is compared is processor time
+// (user + system) of the process tree, which does not grow with the load of
+// the machine the way wall time does.
+func judgeScaling(c *Ctx, sc *Scenario, p *c05Params) *Violation {
+	if os.Getenv("VERIF_GITSIZER_BIN") == "" {
+		return nil
+	}
+	measure := func(breadth int) (time.Duration, *Violation) {
+		w := scalingWorld(breadth)
+		site, err := Materialise(w)
+		if err != nil {
+			return 0, nil
+		}
+		defer site.Close()
+		best := time.Duration(0)
+		for i := 0; i < 1; i++ {
+			b := *sc
+			b.World = w
+			b.Plan = Plan{}
+			rb := RunB(&b, site, BOpts{Timeout: 300 * time.Second, NoShim: true})
+			c.Stats.CLIRuns++
+			if rb.Hang {
+				return 0, &Violation{"C05/not-linear-time", fmt.Sprintf("the real binary did not finish within 300 s on a bomb of 3 trees with %d entries each", breadth)}
+			}
+			if rb.Panic != "" || rb.Failed {
+				return 0, &Violation{"C05/run-failed", fmt.Sprintf("breadth %d: %s %s %s", breadth, rb.Err, firstLines(rb.Panic, 6), firstBytes(rb.Stderr, 200))}
+			}
+			got, err := ParseJSONObject(rb.Stdout)
+			if err != nil {
+				return 0, &Violation{"C05/bad-json", err.Error()}
+			}
+			ex := w.Expect([]string{w.Refs[0].OID})
+			if bad := ex.CompareV1(got, AllNumericFields); len(bad) > 0 {
+				sort.Strings(bad)
+				return 0, &Violation{"C05/mismatch:" + strings.SplitN(bad[0], ":", 2)[0], fmt.Sprintf("breadth %d: %s", breadth, strings.Join(bad, "; "))}
+			}
+			if d := time.Duration(rb.CPUNS); best == 0 || d < best {
+				best = d
+			}
+		}
+		return best, nil
+	}
+	t1, v := measure(p.Breadth)
+	if v != nil {
+		return v
+	}
+	t2, v := measure(2 * p.Breadth)
+	if v != nil {
+		return v
+	}
+	c.Stats.Probe("scaling-pairs-timed-on-the-real-binary")
+	c.Stats.Extra["scaling_pairs_cpu_seconds_at_W"] += t1.Seconds()
+	c.Stats.Extra["scaling_pairs_cpu_seconds_at_2W"] += t2.Seconds()
+	c.Stats.Evaluations++
+	c.Stats.Nontrivial[sc.Hash()] = true
+	if t2 > t1*5/2+time.Second {
+		return &Violation{"C05/not-linear-time", fmt.Sprintf("a bomb of 3 trees took %v of processor time with %d entries per tree and %v with %d: more than 2.5 x + 1 s for twice the entries", t1, p.Breadth, t2, 2*p.Breadth)}
+	}
+	return nil
 }
 
 func genC05(g G) *Scenario {
+	if g.Rare(1, 25, "scaling") {
+		b := g.Int(20000, 30000, "scalebreadth")
+		return &Scenario{Format: 1, Property: "C05", Engine: "B", World: scalingWorld(16), Inv: Invocation{Args: []string{"--json", "--no-progress"}, Cwd: "top"},
+			Params: c05Params{Shape: "scaling", Breadth: b}}
+	}
 	opts := DefaultGen
 	opts.MaxBlobs, opts.MaxTrees, opts.MaxCommits, opts.MaxTags, opts.MaxRefs = 5, 5, 4, 2, 4
 	opts.ExtraHeaders = false
@@ -130,6 +213,9 @@ func genC05(g G) *Scenario {
 func judgeC05(c *Ctx, sc *Scenario) *Violation {
 	var p c05Params
 	decodeParams(sc, &p)
+	if p.Shape == "scaling" {
+		return judgeScaling(c, sc, &p)
+	}
 	w := sc.World
 	site, err := Materialise(w)
 	if err != nil {
@@ -300,5 +386,5 @@ func init() {
 			}
 		},
 		Replay: judgeC05,
-		Rule:   "worlds that only a simulated disk can supply: declared blob sizes {2^32-2..2^32+1, 2^33, 2^63, 2^64-1, random around 2^32}, alone, summed across 2^64, inside bombs (breadth^depth around 2^32 and 2^64), references pointing straight at huge blobs; all 21 numeric JSON v1 fields compared with min(true value, capacity) from the big-integer model; saturated metrics must show the infinity sign and 30 '!' at thresholds 0, 30 and 1e300 and the capacity in JSON v2; work observed at the simulated boundary (objects requested from cat-file --batch = distinct non-blob objects) and a 120 s wall ceiling (an expansion proportional to the checkout size would not finish at all). non-trivial: at least one counter saturates; distinct by scenario hash. Not decided here: the saturating-arithmetic law for all operand pairs (a pure function; only the pairs the worlds produce are exercised)"})
+		Rule:   "worlds that only a simulated disk can supply: declared blob sizes {2^32-2..2^32+1, 2^33, 2^63, 2^64-1, random around 2^32}, alone, summed across 2^64, inside bombs (breadth^depth around 2^32 and 2^64), references pointing straight at huge blobs; all 21 numeric JSON v1 fields compared with min(true value, capacity) from the big-integer model; saturated metrics must show the infinity sign and 30 '!' at thresholds 0, 30 and 1e300 and the capacity in JSON v2; work observed at the simulated boundary (objects requested from cat-file --batch = distinct non-blob objects), a 120 s wall ceiling, and (1 evaluation in 25) a scaling pair on the real binary: the same 3-tree bomb with W and 2W entries per tree (W 20 000-30 000) must not take more than 2.5 x + 1 s of processor time (user + system, load-independent) for twice the entries (an expansion proportional to the checkout size would not finish at all). non-trivial: at least one counter saturates; distinct by scenario hash. Not decided here: the saturating-arithmetic law for all operand pairs (a pure function; only the pairs the worlds produce are exercised)"})
 }
